@@ -329,12 +329,14 @@ static const char* rel_name(Relation_Symbol r) { switch (r) { case EQUAL: return
 //   refuniv-ne     refine_universal(!=) exactness
 //   intdiv-neg     native-integer division by a negative divisor (enclosure of non-integer quotients)
 //   wrap-fullwidth, wrap-narrow   see wrap()
+// Classes of recorded known findings (excluded when the id is active) and of defects repaired in /repo (never excluded).
 static bool skip_known(Ctx& c, const char* cls) {
-#ifdef VF_SKIPKNOWN
-  c.tag(std::string("skipped candidate class ") + cls); return true;
-#else
-  (void) c; (void) cls; return false;
-#endif
+  const char* id = 0;
+  if (!std::strcmp(cls, "refuniv-inf")) id = "KF-C12-1";
+  else if (!std::strcmp(cls, "wrap-narrow")) id = "KF-C12-2";
+  else if (!std::strcmp(cls, "refuniv-ne")) return true;      // exactness of refine_universal(!=) is not claimed (sound over-approximation)
+  if (id && vf::kf(id)) { c.excluded(id); return true; }
+  return false;
 }
 struct Skipped {};
 
